@@ -58,8 +58,8 @@ mutual
     | forUp (i lim : Bytes) (body : JsStmts)
     /-- `if (lim > 0) {…} else {…}` -/
     | ifPos (lim : Bytes) (body els : JsStmts)
-    /-- `for (var i = init; i < lim; i += incr) {…}` -/
-    | forStep (i lim : Bytes) (init incr : JsExpr) (body : JsStmts)
+    /-- `for (var i = init, idx = 0; i < lim; i += step, idx++) {…}` (lim, step: variables) -/
+    | forStep (i lim step idx : Bytes) (init : JsExpr) (body : JsStmts)
     /-- `switch (e) { case v: … break; … default: … break; }` -/
     | switchS (e : JsExpr) (cases : JsCases)
   inductive JsStmts where
@@ -122,15 +122,17 @@ def execLoop (body : JEnv → SRes) (i lim : Bytes) : Nat → JEnv → SRes
             execLoop body i lim fuel (setLocal env1 i r)
       else .ok env
 
-/-- `for (…; i < lim; i += incr)` after the initialisation (§12.6.3; `i += e` is `i = i + e`, §11.13.2) -/
-def execLoopStep (body : JEnv → SRes) (i lim : Bytes) (incr : JsExpr) : Nat → JEnv → SRes
+/-- `for (…; i < lim; i += step, idx++)` after the initialisation (§12.6.3; `i += e` is `i = i + e`, §11.13.2; the
+    comma expression evaluates left to right, §11.14) -/
+def execLoopStep (body : JEnv → SRes) (i lim step idx : Bytes) : Nat → JEnv → SRes
   | 0, _ => .unspec
   | fuel + 1, env =>
     withVal (eval env (.bin .lt (.local i) (.local lim))) fun c =>
       if toBoolean c then
         (body env).bind fun env1 =>
-          withVal (eval env1 (.local i)) fun v => withVal (eval env1 incr) fun d => withVal (binop .add v d) fun r =>
-            execLoopStep body i lim incr fuel (setLocal env1 i r)
+          withVal (eval env1 (.bin .add (.local i) (.local step))) fun r =>
+            withVal (eval (setLocal env1 i r) (.local idx)) fun v => withVal (incr v) fun r2 =>
+              execLoopStep body i lim step idx fuel (setLocal (setLocal env1 i r) idx r2)
       else .ok env
 
 /-- `a === b` (§11.9.6) on the primitives of the subset: different types are different; `undefined` and
@@ -188,8 +190,9 @@ mutual
     | .varLength x list, env => withVal (eval env (.call1 .length (.local list))) fun v => .ok (setLocal env x v)
     | .varIndex x list idx, env => withVal (indexVar env list idx) fun v => .ok (setLocal env x v)
     | .forUp i lim body, env => execLoop (execStmts body) i lim fuel (setLocal env i (.num 0))
-    | .forStep i lim init incr body, env =>
-      withVal (eval env init) fun v => execLoopStep (execStmts body) i lim incr fuel (setLocal env i v)
+    | .forStep i lim step idx init body, env =>
+      withVal (eval env init) fun v =>
+        execLoopStep (execStmts body) i lim step idx fuel (setLocal (setLocal env i v) idx (.num 0))
     | .switchS e cases, env => withVal (eval env e) fun v => execCases cases v env
     | .ifPos lim body els, env =>
       withVal (eval env (.bin .gt (.local lim) (.num 0))) fun c =>
